@@ -17,7 +17,8 @@ non-empty local bucket plus the sum for a local-histogram flush. Exact (integer)
 The executable replay machine `Model/HistMachine.lean` — the machine every trace of the real
 implementation is checked against, event by event — is written over the state of this model, and
 `replay_refines` below proves that every item it accepts is a stutter, one step or (a collector that
-skipped a no-op `fetch_add(0)`) two steps of the model: the
+swapped 0 out of a cold bucket, whose no-op `fetch_add(0)` on the hot bucket may be skipped) two steps of
+the model: the
 theorems hold of every state reached while replaying a real trace, and `collect_returns_cut`
 states C02 for the values the real `collect` calls returned.
 -/
@@ -110,10 +111,13 @@ theorem claim_order_fixed {k : Nat} {s s' : St} (h : Step k s s') : s.claimed <+
 
 /-- **replay_refines** — every item (call mark, atomic / lock event with the value it returned,
     return mark) that the replay machine accepts is, on the abstraction `HM.abs`, a stutter, exactly
-    one step of the proof model, or exactly two steps. Two steps happen only at an event before which
-    a collector skipped the no-op `fetch_add(0)` of an `addHot` step on a bucket out of which it had
-    swapped 0 (`HM.skipTask`): the first step is that `addHot` of 0, it changes nothing but the task
-    list (`ts`; the shared state stays `s.core`), the second is the step of the event itself. -/
+    one step of the proof model, or exactly two steps. Two steps happen only at the event at which a
+    collector swaps 0 out of a cold bucket: the first step is that swap - of a cell that holds 0, so it
+    changes nothing but the task list (`ts`; the shared state stays `s.core`) -, the second is the `addHot`
+    of 0 of that bucket (`HM.skipTask`), whose no-op `fetch_add(0)` the code may skip; if the code does
+    issue it later, the event is a stutter (`HM.colStep`, `HM.swapRes_refines`).
+    (Before the collector's steps could be taken in any order, the second step was taken lazily, at the
+    next event; the statement is the same.) -/
 theorem replay_refines {s s' : HM.St} {it : Conc.Item} (h : HM.item s it = .ok s') :
     HM.abs s' = HM.abs s ∨ Hp.Step s.bounds.length (HM.abs s) (HM.abs s') ∨
       ∃ ts, Hp.Step s.bounds.length (HM.abs s) (HM.withTasks s.core ts) ∧
@@ -328,22 +332,27 @@ theorem handoff_needs_acquire :
   Handoff.handoff_needs_acquire
 
 /-- **count_cells_only_rmw** — every event the replay machine accepts on the count cell of a shard is a
-    `fetch_add` ("A"), a compare-exchange ("C") or a load ("L": only the load of a `fetch_add` that is
-    written as a load + compare-exchange loop) — never a store or a swap; as memory events they all read,
-    so whenever one writes it is a read-modify-write (a successful compare-exchange IS one); and a
-    compare-exchange that is a collector's spin has an ordering at least Acquire. Role: this is the
-    hypothesis "every write to `c` is an RMW" of `handoff_hb` for `c` = a shard's count, so the release
-    sequence headed by a publish is never cut (by another observer's publish, the collector's reset in the
-    spin, or its `addCount`).
+    `fetch_add` ("A"), a compare-exchange ("C") or a load ("L": the load of a `fetch_add` that is written as
+    a load + compare-exchange loop, or the load a collector's test-and-test-and-set wait loop does before a
+    spin attempt) — never a store or a swap; as memory events they all read,
+    so whenever one writes it is a read-modify-write (a successful compare-exchange IS one); and an event
+    that belongs to a collector's spin is that load or a compare-exchange with an ordering at least Acquire.
+    Role: this is the hypothesis "every write to `c` is an RMW" of `handoff_hb` for `c` = a shard's count, so
+    the release sequence headed by a publish is never cut (by another observer's publish, the collector's
+    reset in the spin, or its `addCount`).
     (Before the machine accepted a `fetch_add` written as a compare-exchange loop this read
     `(e.k = "A" ∨ e.k = "C") ∧ (e.k = "C" → ordGe e.ord "Acquire") ∧ rd`: then the spin was the only
     compare-exchange on a count cell; now a publish / `addCount` loop has them too, with the ordering of
-    the `fetch_add` they stand for, and the Acquire is stated of the spin.) -/
+    the `fetch_add` they stand for, and the Acquire is stated of the spin. Before the machine accepted the
+    load of a test-and-test-and-set wait loop the second part read
+    `pc.task = some (.colSpin cold ov S) → e.k = "C" ∧ ordGe e.ord "Acquire" = true`, which is false now:
+    a spinning collector may also load.) -/
 theorem count_cells_only_rmw {k : Nat} {c : Hp.St} {cuts : HM.Cuts} {e : Conc.Ev} {pc : HM.Pc}
     {r : HM.Res × HM.Cuts} {b : Bool}
     (h : HM.evStep k c cuts e pc = .ok r) (hl : HM.parseLoc e.loc = .cnt b) :
     (e.k = "A" ∨ e.k = "C" ∨ e.k = "L") ∧
-    (∀ cold ov S, pc.task = some (.colSpin cold ov S) → e.k = "C" ∧ Conc.ordGe e.ord "Acquire" = true) ∧
+    (∀ cold ov S, pc.task = some (.colSpin cold ov S) →
+      (e.k = "C" ∧ Conc.ordGe e.ord "Acquire" = true) ∨ e.k = "L") ∧
     (Handoff.ofEv e).rd = true :=
   ⟨(HM.evStep_cnt_kind h hl).1, (HM.evStep_cnt_kind h hl).2.2, (HM.evStep_cnt_kind h hl).2.1⟩
 
@@ -352,13 +361,19 @@ theorem count_cells_only_rmw {k : Nat} {c : Hp.St} {cuts : HM.Cuts} {e : Conc.Ev
     count of its shard and reads; it is either THE publish — a `fetch_add`, or the successful
     compare-exchange of the loop that `fetch_add` may be written as, with an ordering at least Release: a
     release RMW, which completes the call — or a stutter of that loop (a load, a failed compare-exchange)
-    that writes nothing, changes nothing and leaves the call open. (2) The event accepted from a collector
-    that has flipped is a compare-exchange on the count of the cold shard with an ordering at least
-    Acquire: it reads, and when it succeeds it is an acquire RMW.
+    that writes nothing, changes nothing and leaves the call open. (2) An event accepted from a collector
+    that has flipped is on the count of the cold shard and reads; it is either a spin attempt — a
+    compare-exchange with an ordering at least Acquire: when it succeeds it is an acquire RMW — or the load
+    a test-and-test-and-set wait loop does before an attempt, which writes nothing and changes nothing at
+    all (shared state, call state; the call goes on spinning); and (2') the spin ENDS (the call's task
+    changes) only through a successful compare-exchange with an ordering at least Acquire, an acquire RMW,
+    when the cold count equals the expected value.
     (3) "at least Release" / "at least Acquire" coincide with release / acquire semantics on every
     ordering string, in particular the five real ones. Role: the hypotheses on `p` and `a` of
     `handoff_hb` hold for the publish and the successful spin of every accepted trace.
-    (Before the machine accepted the loop, (1) read `e.k = "A" ∧ … ∧ rd ∧ wr ∧ rel`.) -/
+    (Before the machine accepted the loop, (1) read `e.k = "A" ∧ … ∧ rd ∧ wr ∧ rel`. Before it accepted the
+    load in the wait loop, (2) read `e.k = "C" ∧ parseLoc e.loc = .cnt cold ∧ ordGe e.ord "Acquire" = true ∧
+    rd ∧ (e.ok = true → wr ∧ acq)`, which is false now: a spinning collector may also load; (2') is new.) -/
 theorem publish_is_release_spin_is_acquire {k : Nat} {c : Hp.St} {cuts : HM.Cuts} {e : Conc.Ev} {pc : HM.Pc}
     {r : HM.Res × HM.Cuts} (h : HM.evStep k c cuts e pc = .ok r) :
     (∀ o b, pc.task = some (.obsRun o b []) →
@@ -367,15 +382,20 @@ theorem publish_is_release_spin_is_acquire {k : Nat} {c : Hp.St} {cuts : HM.Cuts
           (Handoff.ofEv e).wr = true ∧ (Handoff.ofEv e).rel = true ∧ r.1.2.2 = some "") ∨
        ((e.k = "L" ∨ (e.k = "C" ∧ e.ok = false)) ∧ (Handoff.ofEv e).wr = false ∧ r.1.1 = c ∧ r.1.2.2 = none))) ∧
     (∀ cold ov S, pc.task = some (.colSpin cold ov S) →
-      e.k = "C" ∧ HM.parseLoc e.loc = .cnt cold ∧ Conc.ordGe e.ord "Acquire" = true ∧
-      (Handoff.ofEv e).rd = true ∧ (e.ok = true → (Handoff.ofEv e).wr = true ∧ (Handoff.ofEv e).acq = true)) ∧
+      HM.parseLoc e.loc = .cnt cold ∧ (Handoff.ofEv e).rd = true ∧
+      ((e.k = "C" ∧ Conc.ordGe e.ord "Acquire" = true ∧
+          (e.ok = true → (Handoff.ofEv e).wr = true ∧ (Handoff.ofEv e).acq = true)) ∨
+       (e.k = "L" ∧ (Handoff.ofEv e).wr = false ∧ r.1.1 = c ∧ r.1.2.1 = pc ∧ r.1.2.2 = none))) ∧
+    (∀ cold ov S, pc.task = some (.colSpin cold ov S) → r.1.2.1.task ≠ pc.task →
+      e.k = "C" ∧ e.ok = true ∧ Conc.ordGe e.ord "Acquire" = true ∧
+      (Handoff.ofEv e).wr = true ∧ (Handoff.ofEv e).acq = true ∧ (c.sh cold).count = ov) ∧
     (∀ o ∈ ["Relaxed", "Acquire", "Release", "AcqRel", "SeqCst"],
       (Conc.ordGe o "Release" = true ↔ o = "Release" ∨ o = "AcqRel" ∨ o = "SeqCst") ∧
       (Conc.ordGe o "Acquire" = true ↔ o = "Acquire" ∨ o = "AcqRel" ∨ o = "SeqCst") ∧
       (Conc.ordGe o "Release" = true → Handoff.relOrd o = true) ∧
       (Conc.ordGe o "Acquire" = true → Handoff.acqOrd o = true)) :=
   ⟨fun _ _ ht => HM.evStep_publish_release ht h, fun _ _ _ ht => HM.evStep_spin_acquire ht h,
-    Handoff.ordGe_table⟩
+    fun _ _ _ ht hx => HM.evStep_spin_exit ht h hx, Handoff.ordGe_table⟩
 
 /-- **publish_as_cas_loop_accepted** — the freedom "a `fetch_add` may be written as a load + compare-exchange
     loop" (`HM.fetchAdd`, used at every `fetch_add` site of the machine: claim, bucket updates, publish, flip,
@@ -404,26 +424,70 @@ theorem publish_as_cas_loop_accepted {k : Nat} {c : Hp.St} {cuts : HM.Cuts} {pc 
   have og : Conc.ordGe "Release" "Release" = true := by decide +kernel
   have htl : loaded.task = some (.obsRun o b []) := ht
   refine ⟨?_, ?_, ?_, ?_⟩
-  · rw [HM.evStep_eq_evStep1 (by intros; simp [ht])]
+  · rw [HM.evStep_eq_evStep1]
     unfold HM.evStep1
     simp only [ht]
     rw [HM.fetchAdd_single rfl hl og rfl rfl rfl hi]
     rfl
-  · rw [HM.evStep_eq_evStep1 (by intros; simp [ht])]
+  · rw [HM.evStep_eq_evStep1]
     unfold HM.evStep1
     simp only [ht]
     rw [HM.fetchAdd_load rfl hl rfl hi]
     rfl
-  · rw [HM.evStep_eq_evStep1 (by intros; simp [htl])]
+  · rw [HM.evStep_eq_evStep1]
     unfold HM.evStep1
     simp only [htl]
     rw [HM.fetchAdd_cas_ok (cur := x) rfl rfl hl og rfl rfl rfl rfl rfl rfl]
     rfl
-  · rw [HM.evStep_eq_evStep1 (by intros; simp [htl])]
+  · rw [HM.evStep_eq_evStep1]
     unfold HM.evStep1
     simp only [htl]
     rw [HM.fetchAdd_cas_failed (cur := x) rfl rfl hl og rfl rfl rfl rfl]
     rfl
+
+/-- **collector_drain_any_order** — the freedom "a collector past its spin may take its steps in any order"
+    (`HM.colStep`; in the proof model `Hp.Step.swap / addHot / addCount` take ANY element of the task's list,
+    `addHot c` only when `swap c` is no longer in it, `Hp.Step.unlock` only when the list is `[unlock]`), and
+    its limits. For a collector whose remaining steps are `l1 ++ st :: l2` and an event on the location of
+    `st` (cold cell for `swap`, hot cell for `addHot`, hot count for `addCount`, the lock for `unlock`; no
+    earlier step of the list works on that location): (1) the event is checked exactly as if `st` were the
+    head of the list, and `l1 ++ l2` remains - with `l1 = []` this is the old fixed order; (2) if `st` is
+    `addHot cell` and `swap cell` is still to be done, the event is rejected; (3) if `st` is the `unlock` and
+    anything else is left, the event is rejected. (4) An event on a location no remaining step works on is
+    rejected (unless it is the `fetch_add(0)`, accepted once, of an `addHot` the machine took silently):
+    so no cold cell is swapped twice and no drained value is added twice - the list is duplicate-free
+    (`Hp.TodoWf`, part of the invariant `Hp.Inv`). Whatever IS accepted refines the proof model
+    (`replay_refines`), so all theorems of this file hold for every admissible order. -/
+theorem collector_drain_any_order {k : Nat} {c : Hp.St} {cuts : HM.Cuts} {e : Conc.Ev} {pc : HM.Pc}
+    {cold : Bool} {ov : Nat} {taken : Cells} {S : List Obs} :
+    (∀ l1 st l2, pc.task = some (.colMove cold ov (l1 ++ st :: l2) taken S) →
+      (∀ x ∈ l1, HM.stepLoc k cold x ≠ HM.parseLoc e.loc) → HM.stepLoc k cold st = HM.parseLoc e.loc →
+      HM.evStep k c cuts e pc = HM.colStep k c cuts e pc cold ov (st :: (l1 ++ l2)) taken S ∧
+      (∀ cell, st = .addHot cell → CStep.swap cell ∈ l1 ++ l2 → ∃ m, HM.evStep k c cuts e pc = .error m) ∧
+      (st = .unlock → l1 ++ l2 ≠ [] → ∃ m, HM.evStep k c cuts e pc = .error m)) ∧
+    (∀ todo, pc.task = some (.colMove cold ov todo taken S) →
+      (∀ x ∈ todo, HM.stepLoc k cold x ≠ HM.parseLoc e.loc) →
+      (∀ z ∈ pc.zeros, HM.parseLoc e.loc ≠ .bkt (!cold) z) → ∃ m, HM.evStep k c cuts e pc = .error m) := by
+  refine ⟨fun l1 st l2 ht h1 hq => ⟨?_, ?_, ?_⟩, fun todo ht h hz => ?_⟩
+  · rw [HM.evStep_colMove ht, HM.colStep_any_step h1 hq]
+  · rintro cell rfl hs
+    rw [HM.evStep_colMove ht]
+    exact HM.colStep_rejects_addHot_before_swap h1 hq hs
+  · rintro rfl hne
+    rw [HM.evStep_colMove ht]
+    exact HM.colStep_rejects_early_unlock h1 hq hne
+  · rw [HM.evStep_colMove ht]
+    exact HM.colStep_rejects_no_step h hz
+
+/-- **spin_wait_load_accepted** — the freedom "the wait loop may be test-and-test-and-set": while a collector
+    spins, a load (any ordering) of the cold shard's count that returns the count is accepted and changes
+    nothing at all; the spin still ends only through the successful Acquire compare-exchange
+    (`publish_is_release_spin_is_acquire` (2')) -/
+theorem spin_wait_load_accepted {k : Nat} {c : Hp.St} {cuts : HM.Cuts} {pc : HM.Pc} {cold : Bool} {ov : Nat}
+    {S : List Obs} (ht : pc.task = some (.colSpin cold ov S)) (t : Nat) (l o : String) (a b : UInt64) (ok : Bool)
+    (hl : HM.parseLoc l = .cnt cold) :
+    HM.evStep k c cuts ⟨t, "L", l, o, a, b, (c.sh cold).count.toUInt64, ok⟩ pc = .ok ((c, pc, none), cuts) :=
+  HM.colSpin_load_accepted ht t l o a b ok hl
 
 open Prom.Handoff in
 /-- **replayed_publish_happens_before_collect** — the three facts combined, for whole traces: in the
